@@ -232,7 +232,7 @@ fn check_golden(check: &mut Check, g: &Golden, variant: &str, bytes: &[u8], expe
     }
     }
     // further commits, one of them reusing free pages, then reopen
-    let or = Oracles { rets: true, dump_after: true, fileck: true, dbcheck: true, ..Oracles::NONE };
+    let or = Oracles { rets: true, dump_after: true, fileck: true, dbcheck: true, both_headers: true, ..Oracles::NONE };
     for a in followups(g.pagesize) {
         counts.1 += 1;
         for v in r.step(&a, &or) {
